@@ -30,6 +30,7 @@ type iterParams struct {
 	Until   int    `json:"until,omitempty"`   // ... until this many steps after the halt instant
 	HaltOn  int    `json:"halt_on,omitempty"` // the consumer itself calls Halt as soon as it has received this depth (a GUI that stops on seeing depth N)
 	Quiesce bool   `json:"quiesce,omitempty"` // captures-only quiescence at the leaves instead of the static evaluation
+	Warm    int    `json:"warm,omitempty"`    // an earlier analysis of the same root to this depth limit has used the same table (run to its end before the analysis under test is launched)
 	Clean   bool   `json:"clean,omitempty"`   // C12: when Halt returns the board is back in its initial state and the table is never touched again
 }
 
@@ -164,6 +165,14 @@ func buildIter(params json.RawMessage) explore.Scenario {
 				}
 			}
 			l := &searchctl.Iterative{Root: iterRoot(p.Quiesce)}
+			if p.Warm > 0 {
+				_, warm := l.Launch(ctx, b, tt, eval.Random{}, searchctl.Options{DepthLimit: lang.Some(uint(p.Warm))})
+				for {
+					if _, ok := vs.Recv2(warm); !ok {
+						break
+					}
+				}
+			}
 			h, out := l.Launch(ctx, b, tt, eval.Random{}, opt)
 			vs.GoNamed("consumer", func() {
 				for {
@@ -315,7 +324,7 @@ func init() {
 	Builders["iter"] = buildIter
 	Defs["C15"] = &Def{
 		ID:   "C15",
-		Rule: "real searchctl.Iterative.Launch on small roots (K v K, fortress, checkmated, stalemated, mate-in-1 net) x depth limit {none,1,2,3} x table {off,on} x time control {none, given}; the same with captures-only quiescence at the leaves on roots where a capture mates just beyond the horizon; threads: the iterative-deepening goroutine, its quit-cancel goroutine, a consumer, a halter whose Halt becomes enabled at scheduler step k for a grid of k over the whole run (halt instant enumerated), the hard-limit timer (release step enumerated), a consumer that itself calls Halt as soon as it has received depth 1 or 2 next to that timer (two callers of Halt; timer at every step of a grid and as a lazy thread), the search / quit-cancel / consumer goroutine in turn held back for 60 steps after the halt instant (slow-thread dimension) and, with a time control, every time.Since answered 'short' or 'longer than any limit' (environment deviation); all schedules within the deviation bound. Oracle: reported depths strictly increasing; every reported and every Halt-returned (score, PV with table off) equals a direct fixed-depth search; ends by itself exactly at the depth limit or at the first depth with a forced mate within the depth, never earlier, never without a reason; Halt returns a completed iteration >= 1 at least as deep as everything reported before it was requested. Plus the complete grid of TimeControl.Limits (sequential). distinct_nontrivial = distinct (depth stream, halt result) classes",
+		Rule: "real searchctl.Iterative.Launch on small roots (K v K, fortress, checkmated, stalemated, mate-in-1 net) x depth limit {none,1,2,3} x table {off,on} x time control {none, given}; the same with captures-only quiescence at the leaves on roots where a capture mates just beyond the horizon; the same with a table that an earlier analysis of the same root to another depth limit (deeper and shallower) has filled; threads: the iterative-deepening goroutine, its quit-cancel goroutine, a consumer, a halter whose Halt becomes enabled at scheduler step k for a grid of k over the whole run (halt instant enumerated), the hard-limit timer (release step enumerated), a consumer that itself calls Halt as soon as it has received depth 1 or 2 next to that timer (two callers of Halt; timer at every step of a grid and as a lazy thread), the search / quit-cancel / consumer goroutine in turn held back for 60 steps after the halt instant (slow-thread dimension) and, with a time control, every time.Since answered 'short' or 'longer than any limit' (environment deviation); all schedules within the deviation bound. Oracle: reported depths strictly increasing; every reported and every Halt-returned (score, PV with table off) equals a direct fixed-depth search; ends by itself exactly at the depth limit or at the first depth with a forced mate within the depth, never earlier, never without a reason; Halt returns a completed iteration >= 1 at least as deep as everything reported before it was requested. Plus the complete grid of TimeControl.Limits (sequential). distinct_nontrivial = distinct (depth stream, halt result) classes",
 		Gen: func(tier string) []explore.Scenario {
 			roots := []string{kP1, kFortress, kMated, kStale, "7k/8/5K2/6Q1/8/8/8/8 b - - 0 1",
 				"7k/8/6K1/8/8/8/8/R7 b - - 0 1",  // the side to move is mated in 2: the analysis must end at depth 3
@@ -330,6 +339,22 @@ func init() {
 					out = append(out, iterScenario(q))
 					q.HaltAt = -2
 					out = append(out, iterScenario(q))
+				}
+			}
+			// an analysis whose table an earlier, deeper (or shallower) analysis of the same root has filled
+			for _, f := range roots {
+				for _, limit := range []int{1, 2, 3} {
+					for _, warm := range []int{1, 3, 4} {
+						if warm == limit {
+							continue
+						}
+						q := iterParams{FEN: f, Limit: limit, Table: true, Warm: warm, HaltAt: -1, Timer: 1 << 30, Horizon: 900}
+						out = append(out, iterScenario(q))
+						if warm == 3 {
+							q.HaltAt = -2
+							out = append(out, iterScenario(q))
+						}
+					}
 				}
 			}
 			for _, f := range roots {
